@@ -11,8 +11,20 @@ def C04_units : List (String × String) := [
   ("sanitize.go/func/*Policy.SanitizeReader", "08410f91f837f43a"),
   ("sanitize.go/func/*Policy.SanitizeReaderToWriter", "567a76ba99acc83b"),
   ("sanitize.go/func/*Policy.sanitizeWithBuff", "a00e1f64f0d0c903"),
+  ("sanitize.go/func/*Policy.sanitize/case:html.StartTagToken", "06e5b6a502de1bc0"),
+  ("sanitize.go/func/*Policy.sanitize/case:html.EndTagToken", "13ba196cca634709"),
+  ("sanitize.go/func/*Policy.sanitize/case:html.SelfClosingTagToken", "579a9bca378883dd"),
+  ("sanitize.go/func/*Policy.sanitize/case:html.TextToken", "c2658786898b5dd8"),
+  ("sanitize.go/func/*Policy.sanitize/around-switch", "cd2e2ace16007f49"),
+  ("sanitize.go/func/*Policy.sanitizeAttrs/signature", "d913fc8aa3d2005f"),
+  ("sanitize.go/func/*Policy.sanitizeAttrs/if:len(attrs) == 0", "c54c2c729dfa58ef"),
+  ("sanitize.go/func/*Policy.sanitizeAttrs/assign:cleanAttrs", "d4506d12ad757ef2"),
+  ("sanitize.go/func/*Policy.sanitizeAttrs/label:attrsLoop", "9e43b5a0c3b5e942"),
+  ("sanitize.go/func/*Policy.sanitizeAttrs/if:len(cleanAttrs) == 0", "edfc5c0338cee2da"),
   ("sanitize.go/func/*Policy.sanitizeAttrs/if:linkable(elementName)/if:p.requireParseableURLs", "ef3f9f1514c2daf5"),
-  ("sanitize.go/func/*Policy.validURL", "76fa5460391533f8")
+  ("sanitize.go/func/*Policy.sanitizeAttrs/return", "c7090781c01bac35"),
+  ("sanitize.go/func/*Policy.validURL", "76fa5460391533f8"),
+  ("sanitize.go/func/normaliseElementName", "2bf67939cdf5b934")
 ]
 
 set_option maxRecDepth 100000 in
